@@ -105,12 +105,21 @@ def real_attrs(node):
 # ------------------------------------------------------------------------------------------------
 def _render_chars(s, atoms, q=None):
     by_idx = {}
+    ws_at = {}
     for a in atoms:
-        if s[a[2]:a[2] + a[3]] == a[6] and a[2] not in by_idx:
+        if a[0] == "tokws":
+            if s[a[1]:a[1] + a[2]] == a[5] and a[1] not in ws_at:
+                ws_at[a[1]] = a
+        elif s[a[2]:a[2] + a[3]] == a[6] and a[2] not in by_idx:
             by_idx[a[2]] = a
     out = []
     i = 0
     while i < len(s):
+        w = ws_at.get(i)
+        if w is not None:
+            out.append(w[3])
+            i += w[2]
+            continue
         a = by_idx.get(i)
         if a is None:
             out.append(esc(s[i]))
@@ -218,7 +227,9 @@ def spell(root, marks=True):
         parts.append(open_end)
         if node.kids is None:
             parts.append(">")
-            parts.append(_render_chars(node.text or "", [a for a in atoms if a[0] == "char" and a[1] is None]))
+            parts.append("".join(a[2] for a in atoms if a[0] == "tokpad" and a[1] == 0))
+            parts.append(_render_chars(node.text or "", [a for a in atoms if (a[0] == "char" and a[1] is None) or a[0] == "tokws"]))
+            parts.append("".join(a[2] for a in atoms if a[0] == "tokpad" and a[1] == 1))
             parts.append("</%s%s>" % (name, close_end))
             return "".join(parts)
         gaps = {}
@@ -292,6 +303,11 @@ def atom_kind(atom, node):
         if atom[4] == "named":
             return "char:named[%s]@%s" % (atom[5], where)
         return "char:%s[%s]@%s" % (atom[4], char_class(atom[6]), where)
+    if k == "tokws":
+        return "tokws[%s]@inner" % atom[4]
+    if k == "tokpad":
+        where = "empty" if not (node.text or "") else ("lead" if atom[1] == 0 else "trail")
+        return "tokws[%s]@%s" % (atom[3], where)
     if k == "ns":
         pcls = "alpha" if re.fullmatch(r"[A-Za-z]+", atom[2]) else "nonalpha"
         return "ns:%s[%s]" % (atom[1], pcls)
@@ -504,6 +520,48 @@ def add_chars(tree, rng, count=None, everything=False, forms=None, strict=False)
     return tree
 
 
+# White space inside token elements: MathML trims it at both ends and collapses every inner run of space / tab / LF / CR to one blank
+# (MathML 3, 2.1.7), so a run in any mix -- typed or written as a character reference / &Tab; / &NewLine; -- between two
+# non-blank characters stands for one blank, and a run at either end of a token stands for nothing.
+WS_TOKEN_TAGS = ("mi", "mn", "mo", "mtext", "ms")
+WS_PIECES = {" ": [(" ", "raw"), (" ", "raw"), ("&#32;", "ref"), ("&#x20;", "ref")],
+             "\t": [("\t", "raw"), ("\t", "raw"), ("&#9;", "ref"), ("&#x9;", "ref"), ("&Tab;", "named")],
+             "\n": [("\n", "raw"), ("\n", "raw"), ("&#10;", "ref"), ("&#xA;", "ref"), ("&#x0000a;", "ref"), ("&NewLine;", "named")],
+             "\r": [("\r", "raw"), ("&#13;", "ref"), ("&#xD;", "ref")]}
+
+
+def ws_run(rng, lone_not_blank=False):
+    """(rendered run, class label): 1-5 white-space characters in any mix and spelling; class = characters, length class, spelling class"""
+    n = rng.choice([1, 1, 1, 1, 2, 2, 3, 5])
+    chars = [rng.choice(" \t\n\r") for _ in range(n)]
+    if n == 1 and lone_not_blank and chars[0] == " " and rng.random() < 0.7:
+        chars = [rng.choice("\t\n\r")]
+    pieces = [rng.choice(WS_PIECES[c]) for c in chars]
+    forms = set(f for _, f in pieces)
+    label = "%s,%s,%s" % (ws_class("".join(chars)), "1" if n == 1 else "n", forms.pop() if len(forms) == 1 else "mixed")
+    return "".join(p for p, _ in pieces), label
+
+
+def add_tokws(tree, rng, p=None):
+    """respell inner white-space runs of tokens, pad tokens with leading / trailing white space"""
+    p = p if p is not None else rng.choice([0.4, 0.8])
+    for n, _ in tree.walk():
+        if n.kids is not None or n.tag not in WS_TOKEN_TAGS:
+            continue
+        t = n.text or ""
+        for m in re.finditer(r"[ \t\r\n]+", t):
+            if m.start() == 0 or m.end() == len(t) or rng.random() >= p:
+                continue
+            run, label = ws_run(rng, lone_not_blank=True)
+            if run != m.group(0):
+                add_mark(n, ["tokws", m.start(), len(m.group(0)), run, label, m.group(0)])
+        for side in (0, 1):
+            if rng.random() < p * 0.35:
+                run, label = ws_run(rng)
+                add_mark(n, ["tokpad", side, run, label])
+    return tree
+
+
 def add_ns(tree, rng, adversarial=False):
     q = rng.choice(["'", '"'])
     pos = rng.choice([0, 0, 1])
@@ -519,7 +577,7 @@ def add_ns(tree, rng, adversarial=False):
     return tree
 
 
-FAMILIES = ["ns", "ws", "tagws", "comment", "mjx", "quote", "char", "char-all", "char-raw", "mixed"]
+FAMILIES = ["ns", "ws", "tagws", "tokws", "comment", "mjx", "quote", "char", "char-all", "char-raw", "mixed"]
 ADV_FAMILIES = ["adv-ns", "adv-comment", "adv-mjx"]
 
 
@@ -532,6 +590,8 @@ def make_variant(tree, family, rng):
         add_ws(t, rng)
     elif family == "tagws":
         add_tagws(t, rng)
+    elif family == "tokws":
+        add_tokws(t, rng)
     elif family == "comment":
         add_comments(t, rng)
     elif family == "mjx":
@@ -552,6 +612,7 @@ def make_variant(tree, family, rng):
             add_ns(t, rng)
         add_ws(t, rng, density=0.3)
         add_tagws(t, rng, count=2)
+        add_tokws(t, rng, p=0.3)
         add_comments(t, rng, count=2)
         add_mjx(t, rng, count=2)
         add_quotes(t, rng, p=0.5)
@@ -614,6 +675,10 @@ def tricky():
     add("spaces-non-xml", _eq(mtext("a\u00a0b\u2003c\u2009d\u200ae\u205ff"), mo("\u2061"), mtext("\u00a0"), mtext("g\u200bh\u2060i")))
     add("astral", _eq(mi("𝔄"), mi("𝕏"), mi("𝒜"), mi("𝓏"), mi("𝔸𝔹")))
     add("combining", _eq(N("mover", [mi("x"), mo("\u0311")]), N("mover", [mi("y"), mo("\u20db")]), mtext("e\u0301"), N("mover", [mi("z"), mo("\u20dc")])))
+    # white space inside tokens (trimmed at the ends, inner runs collapse to one blank)
+    add("token-whitespace", math(mrow(mi("x"), mo(">"), mn("0"), mtext("for all"), mi("n"), mtext("such that it holds"), mn("1 000"),
+                                      N("ms", text="a b c"), mi("sin"), mo("\u2061"), mi("y"))))
+    add("token-whitespace-empty", math(mrow(mtext(""), mi("x"), mo("+"), mtext("a b"), mi(""), mn("2"))))
     # quoting
     add("quotes-in-attr", math(_a(N("mfenced", [mi("x"), mi("y")]), open="'", close='"', separators=";"), mo("+"),
                                _a(mi("z"), title="it's", data_q='say "hi"')))
